@@ -15,11 +15,11 @@ import (
 // commands; the leader goes away and the node is promoted; the client goes on using the connection and then ends
 // it: the wills must run once, on the node that is leader now.
 type c18PromCase struct {
-	Demotion bool `json:"demotion,omitempty"` // the other way round: the connection is made to the leader, which then steps down and follows the promoted follower
-	Text  bool   `json:"text"`
-	Wills int    `json:"wills"`
-	Use   bool   `json:"use"`   // the client sends one more request over the connection after the promotion
-	Cause string `json:"cause"` // client-close | protocol-error
+	Demotion bool   `json:"demotion,omitempty"` // the other way round: the connection is made to the leader, which then steps down and follows the promoted follower
+	Text     bool   `json:"text"`
+	Wills    int    `json:"wills"`
+	Use      bool   `json:"use"`   // the client sends one more request over the connection after the promotion
+	Cause    string `json:"cause"` // client-close | protocol-error
 }
 
 func (k c18PromCase) name() string {
